@@ -1,2 +1,61 @@
-From HS Require Import Base.Prelude Model.ZincParse.
-Theorem C07_placeholder : True. Proof. exact I. Qed.
+(* C07 - anything parsed can be re-dumped, transcoded and re-parsed unchanged.
+   PARTIAL: proved for text (every code-point list as Str and as Uri): each format's writer followed by
+   its reader is the identity, hence every chain of transcodings ZINC -> JSON -> ZINC ... returns the
+   value it started from and re-dumping reproduces the same text (idempotent normalisation).
+   Purity needs no theorem in a functional model: zdump / jdump are functions of the value, so two dumps
+   of one value are identical and nothing is modified - that part is checked on the implementation
+   (deep snapshot before / after, two dumps compared) by harness/props/c07.py, as are the other kinds. *)
+From Coq Require Import String.
+From Coq Require Import List NArith Bool.
+From HS Require Import Base.Prelude Model.Value Model.Escape Model.Version Model.Json Model.ZincDump Model.ZincParse.
+From HS Require Import Proofs.EscapeP Proofs.JsonP Proofs.ZincParseP Proofs.ZincDumpP.
+Import ListNotations.
+Open Scope N_scope.
+
+Definition is_text (v : hval) : Prop := exists s, v = VStr s \/ v = VUri s.
+
+(* ZINC: reader after writer is the identity on text, through the whole scalar alternation *)
+Theorem C07_zinc_leg : forall v, is_text v -> forall f g pre3 ver3 t rest,
+  zdump (S f) pre3 v = Ok t -> p_scalar (S g) ver3 (t ++ rest) = Some (Ok v, rest).
+Proof.
+  intros v [s [H|H]] f g pre3 ver3 t rest; subst v.
+  - apply str_scalar_roundtrip.
+  - apply uri_scalar_roundtrip.
+Qed.
+(* JSON: reader after writer is the identity on text *)
+Theorem C07_json_leg : forall v, is_text v -> forall pre3 j,
+  jdump_scalar pre3 v = Ok (JStr j) -> jparse_str pre3 j = Ok v.
+Proof.
+  intros v [s [H|H]] pre3 j; subst v; cbn; intro Q; inversion Q; subst j.
+  - apply rt_str.
+  - apply rt_uri.
+Qed.
+(* both writers accept every text, so every chain of transcodings is defined *)
+Theorem C07_text_always_dumps : forall v, is_text v -> forall f pre3,
+  (exists t, zdump (S f) pre3 v = Ok t) /\ (exists j, jdump_scalar pre3 v = Ok (JStr j)).
+Proof.
+  intros v [s [H|H]] f pre3; subst v; cbn [zdump]; unfold zdump_str, zdump_uri.
+  - destruct (esc_all_total DQ str_esc_letters false esc_str_char every_char_str s) as [t Ht].
+    change (esc_all esc_str_char s) with (escape_str s) in Ht. rewrite Ht. cbn [bind]. split; eexists; reflexivity.
+  - destruct (esc_all_total BQ uri_esc_letters true esc_uri_char every_char_uri s) as [t Ht].
+    change (esc_all esc_uri_char s) with (escape_uri s) in Ht. rewrite Ht. cbn [bind]. split; eexists; reflexivity.
+Qed.
+(* idempotent normalisation: dump (parse (dump v)) is character for character dump v *)
+Theorem C07_zinc_normalisation_idempotent : forall v, is_text v -> forall f g pre3 ver3 t v',
+  zdump (S f) pre3 v = Ok t -> p_scalar (S g) ver3 t = Some (Ok v', []) -> zdump (S f) pre3 v' = Ok t.
+Proof.
+  intros v Hv f g pre3 ver3 t v' Hd Hp.
+  pose proof (C07_zinc_leg v Hv f g pre3 ver3 t [] Hd) as H. rewrite app_nil_r in H. rewrite H in Hp.
+  inversion Hp; subst v'. exact Hd.
+Qed.
+Theorem C07_json_normalisation_idempotent : forall v, is_text v -> forall pre3 j v',
+  jdump_scalar pre3 v = Ok (JStr j) -> jparse_str pre3 j = Ok v' -> jdump_scalar pre3 v' = Ok (JStr j).
+Proof.
+  intros v Hv pre3 j v' Hd Hp. rewrite (C07_json_leg v Hv pre3 j Hd) in Hp. inversion Hp; subst v'. exact Hd.
+Qed.
+
+Print Assumptions C07_zinc_leg.
+Print Assumptions C07_json_leg.
+Print Assumptions C07_text_always_dumps.
+Print Assumptions C07_zinc_normalisation_idempotent.
+Print Assumptions C07_json_normalisation_idempotent.
